@@ -261,6 +261,7 @@ Definition step (s : bs) (o : op) : outcome * bs :=
   | RecvClose m => recv_close s m
   | Recv n => recv s n
   | SetMaxsize m => (ONone, mkBS (rbuf s) (nt s) m (recvsize s) (sbuf s) (script s) (wire s) (dl s))
+  | BadFlags _ _ => (OExn ValueError, s)        (* `if flags: raise ValueError(...)` comes first *)
   | Send d => send s d
   | Buffer d => buffer s d
   | Flush => flush s
